@@ -86,6 +86,7 @@ func (r *recTT) Write(h board.ZobristHash, bound search.Bound, ply, depth int, s
 // verifyWrite: the no-table full-window value of the position being stored, at the stored depth, must equal the stored score.
 func (r *recTT) verifyWrite(h board.ZobristHash, depth int, score eval.Score) {
 	r.verified++
+	core.Beat()
 	if r.b.Hash() != h {
 		r.res.Violate(r.prop, "store-under-wrong-hash", r.step, "Write(%x) while the board's hash is %x", uint64(h), uint64(r.b.Hash()))
 		r.bad = true
